@@ -9,11 +9,9 @@ ID = "C08"
 HARNESSES = [dict(name="radius", pkg="./plugins/auth/radius/", test="TestVerifC08", timeout=900,
                   files=[("plugins/auth/radius/zz_verif_c08_test.go", "harness/C08/zz_verif_c08_test.go")])]
 MODEL_NEEDS_IMPL = True
-# model variants: "repaired" = every repair (full theorems); "head" = /repo HEAD (the four committed fixes; neither the
-# Event-Timestamp requirement nor duplicate detection: two recorded known findings); "head_nots" / "head_nodedup" = HEAD with
-# exactly one of the two findings present, used to attribute a mismatch to ONE finding.  Regressions of committed fixes
-# match none of them and are VIOLATIONs.
-VARIANTS = ["repaired", "head_nots", "head_nodedup", "head"]
+# model variants: "repaired" = every repair (full theorems); "head" = /repo HEAD (the five committed fixes; not the
+# Event-Timestamp requirement: the one recorded known finding).  Regressions of committed fixes match neither: VIOLATIONs.
+VARIANTS = ["repaired", "head"]
 RULE = ("reply: 1-3 sequential exchanges on one real radiusConn over loopback UDP (identifier and request authenticator "
         "forced, identifier often re-used between rounds; 30 % of non-final rounds are HELD, i.e. overlap with the next "
         "exchange, mostly on the same identifier); per round 1-5 datagrams from the classes genuine / genuine+MA / "
@@ -26,7 +24,7 @@ RULE = ("reply: 1-3 sequential exchanges on one real radiusConn over loopback UD
         "absent / RFC 5176 / as-transmitted / garbage / one bit flipped, request authenticator also with one bit flipped in any octet, Event-Timestamp absent / inside / at +-window / one past / far / zero, "
         "targets of all four kinds, mutable, stripped, non-whitelisted and vendor attributes, Proxy-State, length field "
         "off by some octets, trailing octets (incl. a fake attribute 80), literal junk; in 45 % of the cases a byte-identical copy "
-        "of an earlier timestamped datagram of the case is re-sent later (replay, possibly from another address). auth: Provider.Authenticate "
+        "of an earlier datagram of the case is re-sent later (replay, possibly from another address). auth: Provider.Authenticate "
         "against a server that answers the live request with scripted genuine/forged/flipped replies (decision by the Coq "
         "function authenticate_radius; the model prints the request it expects on the wire). corpus: defect witnesses, "
         "Go literal tables (lits) and one CoA per pkg/aaa attribute name. "
@@ -40,7 +38,7 @@ TRUSTED = ["MD5 is an argument of the model (OCaml Digest in the driver, crypto/
            "defined in Coq from it (RFC 2104)",
            "layeh.com/radius Parse/Encode are transcribed in the model (parse, enc_attrs, build_request) and tied by correspondence only",
            "rendering of IP addresses/prefixes as strings is not modelled (such attributes never survive stripNonMutableAttrs)"]
-ASSUMPTIONS = ["model variant head = /repo HEAD (Event-Timestamp not required while the window is enabled: known finding "
+ASSUMPTIONS = ["model variant head = /repo HEAD (Event-Timestamp not required while the window is enabled: the one known finding "
                "coa-without-event-timestamp-bypasses-window); C08_coa_admission is proved for repaired, the HEAD guarantee is "
                "C08_coa_admission_head_window_only_if_timestamped",
                "authenticity conclusions are relative to the unforgeability of MD5/HMAC-MD5 under the shared secret: the theorems "
@@ -306,19 +304,12 @@ def gen_coa(rng):
                                                       ",".join("%s/%s" % (h, hx(k)) for h, k in clients))
     n = rng.choice([1, 2, 3, 4])
     with_dup = rng.random() < 0.45
-    pk = [gen_coa_packet(rng, clients, win, nasid, force_ts=with_dup and win > 0) for _ in range(n)]
-    if with_dup and win > 0:
-        pk = [p for p in pk if " raw=" not in p]
-        while not pk:
-            p = gen_coa_packet(rng, clients, win, nasid, True)
-            if " raw=" not in p:
-                pk = [p]
+    pk = [gen_coa_packet(rng, clients, win, nasid) for _ in range(n)]
     # replays: byte-identical copies of earlier datagrams of the case (possibly from another address of the client net,
-    # possibly after other requests for the same target).  Only of packets that carry a usable Event-Timestamp when the
-    # window is enabled, so that the two recorded findings are never needed for one case at once.
+    # possibly after other requests for the same target)
     if with_dup and pk:
         for _ in range(1):
-            cand = [i for i, p in enumerate(pk) if " dup=" not in p and " raw=" not in p and (win <= 0 or ":TS" in p)]
+            cand = [i for i, p in enumerate(pk) if " dup=" not in p]
             if not cand:
                 break
             k = rng.choice(cand)
@@ -467,42 +458,26 @@ def _usable_ts(kv, pk):
 
 
 def signature(case, impl, models):
-    """Two findings are recorded.  A mismatch against [repaired] is attributed to ONE of them only if the implementation's
-    line equals the model with exactly that finding present and every differing packet has the input class of the finding:
-      coa-without-event-timestamp-bypasses-window: window > 0, recipe without usable Event-Timestamp, executed (reply) by the
-        implementation, dropped by [repaired];
-      coa-duplicate-request-reexecuted: a `dup=` packet (byte-identical copy of an earlier datagram of the case) that the
-        implementation handled again (statistics counted / event published) while [repaired] answers it from the cache.
-    Cases that need both findings at once are not generated; anything else is a VIOLATION."""
-    if case.split(" ", 1)[0] != "coa":
+    """One finding is recorded.  A mismatch against [repaired] is attributed to it only if the implementation's line equals
+    the [head] model's line and every differing packet has the input class of the finding: window > 0, recipe (or, for a
+    `dup=` packet, the recipe it copies) without usable Event-Timestamp, answered by the implementation, dropped by
+    [repaired].  Anything else is a VIOLATION."""
+    if case.split(" ", 1)[0] != "coa" or models.get("head") != impl:
         return None
     rep = models.get("repaired", "")
     pk = _pkts(case)
     win = int(case.split()[1].split("=", 1)[1])
     si, sr = _segs(impl), _segs(rep)
-    if len(pk) != len(si) or len(si) != len(sr):
+    if win <= 0 or len(pk) != len(si) or len(si) != len(sr):
         return None
-    if models.get("head_nots") == impl:
-        if win <= 0:
+    hit = False
+    for kv, a, b in zip(pk, si, sr):
+        if a == b:
+            continue
+        if _usable_ts(kv, pk) is not False or _coa_proj(a)[0] != "reply" or _coa_proj(b)[0] != "drop":
             return None
-        hit = False
-        for kv, a, b in zip(pk, si, sr):
-            if a == b:
-                continue
-            if _usable_ts(kv, pk) is not False or _coa_proj(a)[0] != "reply" or _coa_proj(b)[0] != "drop":
-                return None
-            hit = True
-        return "coa-without-event-timestamp-bypasses-window" if hit else None
-    if models.get("head_nodedup") == impl:
-        hit = False
-        for kv, a, b in zip(pk, si, sr):
-            if a == b:
-                continue
-            if "dup" not in kv or _tok(b, "st") != "none" or _tok(b, "ev") != "noev" or _tok(a, "st") == "none":
-                return None
-            hit = True
-        return "coa-duplicate-request-reexecuted" if hit else None
-    return None
+        hit = True
+    return "coa-without-event-timestamp-bypasses-window" if hit else None
 
 
 def nontrivial(case, out):
